@@ -36,8 +36,8 @@ CONFIGS = {
     "C05": dict(quick=["Layout_eam_quick", "Layout_fs_quick", "Layout_eamu_quick", "Layout_fsu_quick", "Layout_eamf_quick", "Layout_fsf_quick"],
                 thorough=["Layout_eam_thorough", "Layout_fs_thorough", "Layout_eamu_quick", "Layout_fsu_thorough", "Layout_eamf_quick", "Layout_fsf_quick"],
                 targets=["DL_POLY_EAM", "DL_POLY_EAM_fs"]),
-    "C19": dict(quick=["Layout_pair_quick", "Layout_pair_big", "Layout_pairdup_quick", "Layout_eam_quick", "Layout_eamu_quick", "Layout_eamf_quick", "Layout_fs_quick", "Layout_fsf_quick", "Layout_adp_quick", "Layout_funcfl"],
-                thorough=["Layout_pair_thorough", "Layout_pair_big", "Layout_eam_thorough", "Layout_eamf_quick", "Layout_fs_thorough", "Layout_fsf_quick", "Layout_adp_thorough", "Layout_funcfl"],
+    "C19": dict(quick=["Layout_pair_quick", "Layout_pair_big", "Layout_pairdup_quick", "Layout_eam_quick", "Layout_eamu_quick", "Layout_eamf_quick", "Layout_fs_quick", "Layout_fsf_quick", "Layout_adp_quick", "Layout_adpu_quick", "Layout_funcfl"],
+                thorough=["Layout_pair_thorough", "Layout_pair_big", "Layout_eam_thorough", "Layout_eamf_quick", "Layout_fs_thorough", "Layout_fsf_quick", "Layout_adp_thorough", "Layout_adpu_quick", "Layout_funcfl"],
                 targets=["GULP", "excel", "excel_eam", "excel_eam_fs", "eam_adp", "funcfl"]),
 }
 
